@@ -25,6 +25,8 @@ CLAIMED = {
          "decides the unwinding clauses C09-ERR/POLL/IMM/FALLBACK per call site (so for every poll index at once), not the legality of later searches on the surviving tables"),
  "C10": ("provenance of yielded values, inequality-guard dominance, forward-only stage typestate",
          "decides the necessary clauses C10-SRC/DEDUP/STAGE/LOUD (yielded moves come from the generated list or equal one of its elements, hash move never yielded twice, stages only advance, captures-only picker stays loud), not the index arithmetic of the segments"),
+ "C11": ("abstract execution of the material predicate over all piece-count models (path-sensitive symbolic walk), shape and threshold of the fifty-move predicate, shape of the repetition scan, caller guards",
+         "decides the clauses C11-MATERIAL/FIFTY/REPKEY/CALLERS (dead-material verdicts for every count model, `clock >= 100 && has a legal move`, full-key comparison over a clock-bounded newest-first window, both search functions consult all three predicates); not the exactness of the repetition verdict over all game histories; clauses whose code is not in a recognisable form are reported as not decided, without alarm"),
  "C12": ("effect analysis over the search call-graph cone, reset-covers-writes field sets, forward slice of clock reads, static-mut writer sets",
          "decides the clauses C12-EFFECT/RESET/PERSEARCH/STATICS/SEED (no nondeterminism source influences a depth-limited search, reset covers every field the search writes, per-search tables, init-only statics, constant seed), not equality of two actual runs"),
  "C13": ("guard dominance for zero-length division, advertise/handle set agreement, constant range relations",
@@ -41,7 +43,6 @@ CLAIMED = {
          "decides the structural clauses C19-KEY/POLICY/IDX/CLEAR/ZERO/GEN/WRITERS/PREF, not arbitrary operation sequences"),
 }
 NA = {
- "C11": "quantifies over whole game histories and key equality; the code is three small value-level predicates with no structural clause whose breakage is visible in shape (prerequisites decided under C02/C03)",
  "C18": "relation between a produced string and the legal-move set of an arbitrary position; available structural clauses are far too weak to stand for it (see DESIGN.md)",
  "C20": "verdicts depend on the full attacker/x-ray constellation and piece values; no structural clause is a necessary condition robust to behaviour-preserving edits",
 }
